@@ -975,9 +975,17 @@ func (m *monitor) step(s stepRec) string {
 		m.classes["message_via_data"] = true
 		return ""
 	case "bdat-badsize", "bdat-3args", "bdat-badlast":
-		if m.chunked {
-			m.uncertain = true // whether the open transfer survives is not specified
-			m.classes["unspecified_bad_bdat_during_transfer"] = true
+		if m.txn {
+			// whether the open transaction (and transfer) survives a BDAT
+			// command that is refused for its syntax is not specified: RFC
+			// 3030 lets a server consider the transaction failed
+			m.classes["unspecified_bad_bdat_in_transaction"] = true
+			if m.chunked {
+				m.classes["unspecified_bad_bdat_during_transfer"] = true
+			}
+			e := m.refuse(s, "malformed BDAT")
+			m.uncertain = true
+			return e
 		}
 		return m.refuse(s, "malformed BDAT")
 	case "bdat":
@@ -1103,6 +1111,17 @@ func (m *monitor) step(s stepRec) string {
 			return m.refuse(s, "AUTH on an insecure connection")
 		case !m.script.AuthSession:
 			return m.refuse(s, "backend has no AUTH support")
+		case m.txn || m.uncertain:
+			// AUTH inside a mail transaction: RFC 4954 forbids the client to
+			// send it; a server may refuse it (503) or go through with it
+			m.unspecified++
+			m.classes["unspecified_auth_in_transaction"] = true
+			for _, rp := range s.Replies {
+				if rp.Code == 235 {
+					m.authed = true
+				}
+			}
+			return ""
 		}
 		var sc harness.SASLScript
 		if m.nSASL < len(m.script.SASL) {
@@ -1147,6 +1166,11 @@ func (m *monitor) step(s stepRec) string {
 	case "starttls-fail":
 		if m.cfg.TLS != "starttls" || m.tls {
 			return m.refuse(s, "TLS not configured or already active")
+		}
+		if len(s.Replies) == 1 && s.Replies[0].Code == 220 && s.Closed {
+			// giving up the connection without another word is an answer too
+			m.classes["failed_tls_handshake"] = true
+			return noWork()
 		}
 		if len(s.Replies) != 2 || s.Replies[0].Code != 220 || s.Replies[1].Class() == 2 || s.Replies[1].Class() == 3 {
 			return fmt.Sprintf("%s: expected 220 and, after plaintext instead of a handshake, a negative reply; got %v", cmd, replyCodes(s.Replies))
@@ -1195,9 +1219,10 @@ func traceInvariants(c hCase, run hRun) string {
 	greetedOK := false
 	mailOK := false
 	rcptOK := 0
+	unknown := false // whether a transaction is open is not known (see bad BDAT below)
 	for _, s := range run.steps {
 		for _, e := range s.Events {
-			if !e.Begin {
+			if !e.Begin || (unknown && e.CB != "Mail") {
 				continue
 			}
 			switch e.CB {
@@ -1223,11 +1248,11 @@ func traceInvariants(c hCase, run hRun) string {
 		case "greet", "helo":
 			if last.Class() == 2 {
 				greetedOK = true
-				mailOK, rcptOK = false, 0
+				mailOK, rcptOK, unknown = false, 0, false
 			}
 		case "starttls":
 			if s.TLS {
-				greetedOK, mailOK, rcptOK = false, false, 0
+				greetedOK, mailOK, rcptOK, unknown = false, false, 0, false
 			}
 		case "mail", "mail-binary", "mail-size-over":
 			if last.Class() == 2 {
@@ -1241,20 +1266,23 @@ func traceInvariants(c hCase, run hRun) string {
 				}
 			}
 		case "rset":
-			mailOK, rcptOK = false, 0
+			mailOK, rcptOK, unknown = false, 0, false
 		case "data":
 			if s.Replies[0].Code == 354 {
 				mailOK, rcptOK = false, 0
 			}
 		case "bdat":
-			if s.Cmd.Last || last.Class() != 2 {
-				if last.Class() != 2 || s.Cmd.Last {
-					// final reply (either sign), failed chunk or refusal: a refusal for
-					// lack of a transaction changes nothing, the others end it
-					if !(last.Code == 502 || last.Code == 503) {
-						mailOK, rcptOK = false, 0
-					}
-				}
+			// Without an accepted MAIL and RCPT the command is out of order:
+			// its refusal (whatever the code) changes nothing. Otherwise a
+			// LAST chunk or a negative reply ends the transaction.
+			if mailOK && rcptOK > 0 && (s.Cmd.Last || last.Class() != 2) {
+				mailOK, rcptOK = false, 0
+			}
+		case "bdat-badsize", "bdat-3args", "bdat-badlast":
+			// refused for its syntax: the transaction may or may not survive;
+			// from here on this walk knows nothing until the next certain end
+			if mailOK {
+				unknown = true
 			}
 		}
 	}
